@@ -63,6 +63,15 @@ def to_S(s):
     return s
 
 
+def is_cplx(S):
+    """('c', n) = cn(n), flat layout [re..., im...]."""
+    return isinstance(S, tuple) and len(S) == 2 and S[0] == 'c'
+
+
+def is_prod(S):
+    return isinstance(S, tuple) and not is_cplx(S)
+
+
 def mk_space(S):
     import odl
     if S not in _SPACES:
@@ -70,6 +79,8 @@ def mk_space(S):
             _SPACES[S] = odl.RealNumbers()
         elif isinstance(S, int):
             _SPACES[S] = odl.rn(S)
+        elif is_cplx(S):
+            _SPACES[S] = odl.cn(S[1])
         else:
             _SPACES[S] = odl.ProductSpace(*[mk_space(s) for s in S])
     return _SPACES[S]
@@ -80,6 +91,8 @@ def dim(S):
         return 1
     if isinstance(S, int):
         return S
+    if is_cplx(S):
+        return 2 * S[1]
     return sum(dim(s) for s in S)
 
 
@@ -90,6 +103,9 @@ def elem(S, vals):
         return float(vals[0])
     if isinstance(S, int):
         return mk_space(S).element(np.array(vals, dtype=float))
+    if is_cplx(S):
+        n = S[1]
+        return mk_space(S).element(np.array(vals[:n], dtype=float) + 1j * np.array(vals[n:], dtype=float))
     parts, o = [], 0
     for s in S:
         parts.append(elem(s, vals[o:o + dim(s)]))
@@ -124,6 +140,13 @@ MID_SPACES = [1, 2, 3, 2, 3, (2, 1), (1, 2), (2, 2), (1, 1, 2)]
 
 
 def gen_leaf(rng, S, T):
+    if is_cplx(S):
+        assert T == S[1], (S, T)
+        return {'k': rng.choice(['cmodsq', 'cmodsq', 'realpart', 'imagpart']), 'dom': S, 'ran': T}
+    if is_cplx(T):
+        assert S == T[1], (S, T)
+        a, b = rng.choice([(1, 0), (0, 1), (1, 2), (-2, 1), (2, -1), (1, 1)])
+        return {'k': 'cembed', 'dom': S, 'ran': T, 'a': a, 'b': b}
     if T == 'R':
         if rng.random() < 0.5:
             return {'k': 'inner', 'dom': S, 'ran': T, 'v': rints(rng, dim(S))}
@@ -156,15 +179,22 @@ def gen(rng, S, T, depth):
     """Random tree mapping mk_space(S) -> mk_space(T)."""
     if depth <= 0 or rng.random() < 0.12:
         return gen_leaf(rng, S, T)
-    ks = ['sum', 'sum', 'comp', 'comp', 'comp', 'lscal', 'rscal', 'rvec', 'pprod', 'pprod']
-    if T != 'R':
-        ks += ['vecsum', 'lvec', 'flvec']
-        if isinstance(T, tuple):
-            ks += ['bcast', 'bcast']
-            if isinstance(S, tuple) and len(S) == len(T):
-                ks += ['diag', 'diag', 'diag']
-        if isinstance(S, tuple):
-            ks += ['reduce', 'reduce']
+    if is_cplx(S) or is_cplx(T):
+        # complex spaces: only what the flat real reading of the model covers (no point-wise
+        # products with complex vectors/values)
+        ks = ['sum', 'sum', 'comp', 'comp', 'lscal', 'rscal', 'vecsum']
+    else:
+        ks = ['sum', 'sum', 'comp', 'comp', 'comp', 'lscal', 'rscal', 'rvec', 'pprod', 'pprod']
+        if T != 'R':
+            ks += ['vecsum', 'lvec', 'flvec']
+            if is_prod(T):
+                ks += ['bcast', 'bcast']
+                if is_prod(S) and len(S) == len(T):
+                    ks += ['diag', 'diag', 'diag']
+                if is_prod(S):
+                    ks += ['pso', 'pso', 'pso']
+            if is_prod(S):
+                ks += ['reduce', 'reduce']
     if S == 'R':
         return gen_leaf(rng, S, T)
     k = rng.choice(ks)
@@ -174,7 +204,14 @@ def gen(rng, S, T, depth):
                 'tr': T != 'R' and rng.random() < 0.5, 'td': rng.random() < 0.4}
         return node
     if k == 'comp':
-        M = rng.choice(MID_SPACES + [S, T if T != 'R' else S])
+        if is_cplx(S):
+            M = T            # (cn(n) -> rn(n)) then rn(n) -> rn(n)
+        elif is_cplx(T):
+            M = S            # rn(n) -> rn(n) then (rn(n) -> cn(n))
+        else:
+            M = rng.choice(MID_SPACES + [S, T if T != 'R' else S])
+            if isinstance(S, int) and S == T and rng.random() < 0.35:
+                M = ('c', S)  # through the complex space: e.g. |.|^2 o embedding
         return {'k': 'comp', 'dom': S, 'ran': T, 'l': gen(rng, M, T, d1), 'r': gen(rng, S, M, d1),
                 'tmp': rng.random() < 0.4}
     if k in ('lscal', 'rscal'):
@@ -196,6 +233,12 @@ def gen(rng, S, T, depth):
         return {'k': k, 'dom': S, 'ran': T, 'ops': [gen(rng, s, t, d1) for s, t in zip(S, T)]}
     if k == 'reduce':
         return {'k': k, 'dom': S, 'ran': T, 'ops': [gen(rng, s, T, d1) for s in S]}
+    if k == 'pso':
+        ents = [[i, j] for i in range(len(T)) for j in range(len(S)) if rng.random() < 0.55]
+        if not ents:
+            ents = [[rng.randrange(len(T)), rng.randrange(len(S))]]
+        return {'k': k, 'dom': S, 'ran': T, 'ent': ents,
+                'ops': [gen(rng, S[j], T[i], d1) for i, j in ents]}
     raise AssertionError(k)
 
 
@@ -287,6 +330,17 @@ def tokens(n):
         for o in n['ops']:
             out += ['dcons'] + tokens(o)
         return out + ['dnil']
+    if k == 'pso':
+        out = []
+        for (i, j), o in zip(n['ent'], n['ops']):
+            ro = sum(dim(t) for t in T[:i])
+            co = sum(dim(t) for t in S[:j])
+            out += ['pscons', str(ro), str(co)] + tokens(o)
+        return out + ['psnil', str(dim(S)), str(dim(T))]
+    if k in ('cmodsq', 'realpart', 'imagpart'):
+        return [k, str(S[1])]
+    if k == 'cembed':
+        return ['cembed', str(S), fs(n['a']), fs(n['b'])]
     raise KeyError(k)
 
 
@@ -345,6 +399,19 @@ def build(n):
         return odl.ReductionOperator(*[build(o) for o in n['ops']])
     if k == 'diag':
         return odl.DiagonalOperator(*[build(o) for o in n['ops']])
+    if k == 'pso':
+        mat = [[0] * len(S) for _ in T]
+        for (i, j), o in zip(n['ent'], n['ops']):
+            mat[i][j] = build(o)
+        return odl.ProductSpaceOperator(mat, domain=mk_space(S), range=mk_space(T))
+    if k == 'cmodsq':
+        return odl.ComplexModulusSquared(mk_space(S))
+    if k == 'realpart':
+        return odl.RealPart(mk_space(S))
+    if k == 'imagpart':
+        return odl.ImagPart(mk_space(S))
+    if k == 'cembed':
+        return odl.ComplexEmbedding(mk_space(S), scalar=complex(n['a'], n['b']))
     raise KeyError(k)
 
 
@@ -397,16 +464,24 @@ def bnd(n, bx):
         return _chk(bnd(n['l'], bx) * bnd(n['r'], bx))
     if k in ('bcast', 'diag'):
         return max(bnd(o, bx) for o in n['ops'])
-    if k == 'reduce':
+    if k in ('reduce', 'pso'):
         return _chk(sum(bnd(o, bx) for o in n['ops']))
+    if k == 'cmodsq':
+        return _chk(2 * bx * bx)
+    if k in ('realpart', 'imagpart'):
+        return _chk(bx)
+    if k == 'cembed':
+        return _chk(max(abs(n['a']), abs(n['b']), 1) * bx)
     raise KeyError(k)
 
 
 def dbnd(n, bx, bd):
     """Upper bound of |op.derivative(x)(d)|_inf and of the sub-evaluations made on the way."""
     k = n['k']
-    if k in ('id', 'scal', 'mul', 'mat', 'zero', 'inner'):
+    if k in ('id', 'scal', 'mul', 'mat', 'zero', 'inner', 'realpart', 'imagpart', 'cembed'):
         return bnd(n, bd)
+    if k == 'cmodsq':
+        return _chk(4 * bx * bd)
     if k == 'const':
         return 1
     if k == 'pow':
@@ -433,14 +508,15 @@ def dbnd(n, bx, bd):
         return _chk(bnd(n['r'], bx) * dbnd(n['l'], bx, bd) + bnd(n['l'], bx) * dbnd(n['r'], bx, bd))
     if k in ('bcast', 'diag'):
         return max(dbnd(o, bx, bd) for o in n['ops'])
-    if k == 'reduce':
+    if k in ('reduce', 'pso'):
         return _chk(sum(dbnd(o, bx, bd) for o in n['ops']))
     raise KeyError(k)
 
 
 TOP_SPACES = [(2, 2), (2, 3), (3, 2), (3, 3), (1, 2), (2, 1), (3, 1), ((2, 1), 2), (2, (1, 2)),
               ((2, 2), (2, 2)), ((1, 2), (2, 1)), (3, 'R'), (2, 'R'), ((2, 1), 'R'), (2, (2, 2)),
-              ((2, 1), 3)]
+              ((2, 1), 3), ((2, 1), (1, 2)), ((1, 2), (2, 2)), ((2, 2), (3, 1)), ((2, 1, 1), (2, 2)),
+              (('c', 2), 2), (2, ('c', 2)), (3, ('c', 3)), (('c', 1), 1), (2, 2), (3, 3)]
 
 
 def gen_case(rng, depth):
@@ -508,7 +584,7 @@ def space_dim(sp):
         return sum(space_dim(s) for s in sp)
     if isinstance(sp, odl.set.sets.Field):
         return 1
-    return int(sp.size) * (2 if getattr(sp, 'is_complex', False) and False else 1)
+    return int(sp.size) * (2 if getattr(sp, 'is_complex', False) else 1)
 
 
 def oracle_on(op, x, d, exact_linear=True, tol=1e-6, rate=True):
@@ -559,7 +635,7 @@ def branch_tags(n, op):
         m, o = stack.pop()
         k = m['k']
         lin = bool(o.is_linear)
-        if k in ('sum', 'comp', 'lscal', 'lvec', 'rvec', 'flvec'):
+        if k in ('sum', 'comp', 'lscal', 'lvec', 'rvec', 'flvec', 'pso'):
             tags.append('{}/{}'.format(k, 'linear-shortcut' if lin else 'rule'))
         else:
             tags.append(k)
@@ -582,6 +658,9 @@ def branch_tags(n, op):
             stack.append((m['op'], o.functional))
         elif k in ('bcast', 'reduce', 'diag'):
             for mm, oo in zip(m['ops'], o.operators):
+                stack.append((mm, oo))
+        elif k == 'pso':
+            for mm, oo in zip(m['ops'], list(o.ops.data)):
                 stack.append((mm, oo))
     return tags
 
@@ -1144,7 +1223,8 @@ EXPECTED_BRANCHES = ['model/' + b for b in [
     'comp/linear-shortcut', 'comp/rule', 'comp/left-linear', 'comp/left-nonlinear',
     'lscal/linear-shortcut', 'lscal/rule', 'rscal', 'lvec/linear-shortcut', 'lvec/rule',
     'rvec/linear-shortcut', 'rvec/rule', 'pprod', 'pprod/functional', 'pprod/vector',
-    'flvec/linear-shortcut', 'flvec/rule', 'bcast', 'reduce', 'diag']]
+    'flvec/linear-shortcut', 'flvec/rule', 'bcast', 'reduce', 'diag', 'pso/linear-shortcut', 'pso/rule',
+    'cmodsq', 'realpart', 'imagpart', 'cembed']]
 
 
 def search(ctx, broken):
